@@ -145,7 +145,7 @@ impl<'a, 'c> G9<'a, 'c> {
     /// wrap the statement at a nesting position
     pub fn program(&mut self, depth: u32) -> String {
         let positions = ["top", "free-block", "nested-free-block", "loop-body", "if-body", "else-body", "times-body", "while-in-free-block", "free-block-in-loop"];
-        let p = positions[self.ch.pick(positions.len())];
+        let p = positions[self.ch.pick_free(positions.len())];   // every nesting position, for free
         self.positions.insert(p);
         let s = self.stmt(depth);
         let inner = match p {
@@ -269,10 +269,10 @@ pub fn run(tier: &str) -> Report {
     let thorough = tier == "thorough";
     let table = Table::new(&TableCfg::FULL);
     let mapfile = table.mapfile_text(REGS);
-    let (bound, depth) = if thorough { (5, 2) } else { (4, 2) };
+    let (bound, depth) = if thorough { (4, 2) } else { (3, 2) };
     let mut cases: Vec<(String, bool, bool)> = vec![];
     let mut seen = BTreeSet::new();
-    let stats = explore_dfs(bound, if thorough { 4_000_000 } else { 400_000 }, &|ch| {
+    let stats = explore_dfs(bound, if thorough { 6_000_000 } else { 2_000_000 }, &|ch| {
         let mut g = G9 { ch, ill: false, mutated: false, positions: BTreeSet::new() };
         let body = g.program(depth);
         (body, g.ill, g.mutated)
@@ -290,7 +290,7 @@ pub fn run(tier: &str) -> Report {
         rep.failures.extend(o.failures);
     }
     rep.exhaustive = true;
-    rep.bound_completed = format!("deviations<={bound}, expression depth<={depth}; 18 statement contexts x 9 nesting positions x 18 expression shapes x 13 atoms of all types");
+    rep.bound_completed = format!("deviations<={bound} (the nesting position is a free choice: full product), expression depth<={depth}; 18 statement contexts x 9 nesting positions x 18 expression shapes x 13 atoms of all types");
     rep.rule = "E-DFS over an untyped statement/expression grammar whose default alternatives are well-typed; every other alternative (an atom, operator, cast, sigil, arity or variable of another type) is one deviation, so the single-point mutations of every base program are covered; non-trivial = M4 judges the program ill-typed".into();
     rep.assumptions = vec!["M4 reference typer (harness), written from the documented rules".into(), "AstVm::eval for the value-type clause".into()];
     rep.explanation = "Ok/Err of passes::type_check::run compared with M4's verdict at every nesting position; for accepted programs Expr::compute_ty of every subexpression compared with the type of its evaluated value".into();
